@@ -46,7 +46,8 @@ def find_sector(ctx, R):
         for ai, a in enumerate(t["args"]):
             r = v.root(a)
             pty = ctx.facts.ty(cb.local_ty(ai + 1)) or {}
-            if r.kind == "local" and r.base[1] == rd["local"] and not r.path and pty.get("k") == "ref" and pty.get("mut"):
+            pointee = (ctx.facts.ty(pty.get("t", "")) or {}) if pty.get("k") == "ref" else {}
+            if r.kind == "local" and not r.path and pty.get("k") == "ref" and pty.get("mut") and pointee.get("path") == rd["adt"]:
                 cands.append((bi, t, cb))
     # two expected: sector and gauss; sector's result flows into the matrix builder (x parameters) — pick by order w.r.t. quantile call
     qsites = [bi for bi, t, cb in R.local_callees(s) if cb is q]
